@@ -457,6 +457,80 @@ func TestC12(t *testing.T) {
 		st.Note("exhaustive: \"[\"+body+\"]\" and body for bodies of <= %d tokens over %q x subjects of <= 2 symbols over %q x 4 modes", pn, palpha, salpha)
 	}
 
+	// (a⁗) the class table: every class x every ASCII character, plain and
+	// negated; characters whose encoding ends in (or whose code point has the
+	// low byte of) an ASCII character that is special somewhere; pairs of
+	// patterns on subjects with multi-byte characters
+	if sh == 0 {
+		var total, nt int64
+		run := func(c c12Case) {
+			v, wild, err := checkC12(c)
+			if err != nil {
+				fail(t, "C12", "match", c, "%v", err)
+			}
+			total++
+			if v == c12Checked && wild && c.Subject != "" {
+				nt++
+			}
+		}
+		for _, name := range []string{"alpha", "digit", "alnum", "upper", "lower", "space", "blank", "punct", "xdigit", "cntrl", "print", "graph"} {
+			for ch := 0; ch < 128; ch++ {
+				for _, p := range []string{"[[:" + name + ":]]", "[![:" + name + ":]]", "*[[:" + name + ":]]", "[^[:" + name + ":]x]"} {
+					run(c12Case{Patterns: []string{p}, Mode: c12Modes[ch%4], Subject: string(rune(ch))})
+					run(c12Case{Patterns: []string{p}, Mode: c12Modes[(ch+1)%4], Subject: "a " + string(rune(ch))})
+				}
+			}
+		}
+		st.ClassN("class_table_x_ascii", total)
+		n0 := total
+		for _, base := range []rune{0x100, 0x200, 0x4E00, 0x1F600, 0x80} {
+			for _, m := range ".+()|{}^$*?[]\\-!:=#" {
+				r := base&^0xff + m
+				if base == 0x80 {
+					r = 0x80 + m // two bytes, the second one is 0x80+m&0x3f ...
+				}
+				c := string(r)
+				for _, p := range []string{c, "[" + c + "]", `\` + c, "*" + c, c + "?", "[!" + c + "]", "[a-" + c + "]"} {
+					for _, subj := range []string{c, c + c, "a" + c, string(m), c + string(m)} {
+						run(c12Case{Patterns: []string{p}, Mode: c12Modes[int(m)%4], Subject: subj})
+					}
+				}
+			}
+		}
+		st.ClassN("characters_with_a_special_low_byte", total-n0)
+		st.EvalN(total, nt)
+		st.Note("%d cases: the twelve classes x all 128 ASCII characters (plain, negated, behind *, in a negated set); %d cases with characters whose code point has the low byte of . + ( ) | { } ^ $ * ? [ ] \\ - ! : = # (as literal, bracketed, escaped, range end)", n0, total-n0)
+	}
+	{
+		pats := wordsUpTo([]string{"a", "é", "?", "*"}, 3)
+		subjects := wordsUpTo([]string{"a", "é", "\U0001F600"}, 3)
+		pi := 0
+		for _, p1 := range pats {
+			for _, p2 := range pats {
+				pi++
+				if pi%nsh != sh {
+					continue
+				}
+				var nt int64
+				for _, s := range subjects {
+					for _, m := range c12Modes {
+						c := c12Case{Patterns: []string{p1, p2}, Mode: m, Subject: s}
+						v, wild, err := checkC12(c)
+						if err != nil {
+							fail(t, "C12", "match", c, "%v", err)
+						}
+						if v == c12Checked && wild && s != "" {
+							nt++
+						}
+					}
+				}
+				st.EvalN(int64(len(subjects)*len(c12Modes)), nt)
+				st.ClassN("exhaustive_pattern_pairs_multibyte", int64(len(subjects)*len(c12Modes)))
+			}
+		}
+		st.Note("exhaustive: all pairs of patterns of <= 3 symbols over {a é ? *} x subjects of <= 3 symbols over {a é U+1F600} x 4 modes")
+	}
+
 	// (a'') long patterns (regular expression engines limit repeat counts and program sizes)
 	if sh == 0 {
 		long := 0
